@@ -175,7 +175,7 @@ class Generator:
             j = i + 1
             while j < len(lines):
                 sj = lines[j].strip()
-                if re.match(r"^//@(\||loop\s|rewrite|rewriteall|before|afterstmt|after|sig\s|from\s|fromafter\s|to\s|until\s|tail\s|ghostdefault\s)", sj):
+                if re.match(r"^//@(\||loop\s|rewrite|rewriteall|before|afterstmt|after|sig\s|from\s|fromafter\s|to\s|until\s|tail\s|ghostdefault\s|localdefault\s)", sj):
                     cont.append(self._subst_lit(sj))
                     j += 1
                 else:
@@ -257,6 +257,14 @@ class Generator:
                 body = self._apply_insert(c, "{" + body + "}", rules, it)[1:-1]
         if rloops:
             body = self._splice_loops("{" + body + "}", rloops, it)[1:-1]
+        for c in edits:
+            # `//@localdefault NAME: TYPE = VALUE`: the wrapper's `//@tail` / contract names a local of the region; on a
+            # tree whose text no longer declares it, a constant stands in, so that the obligations (not the front end)
+            # decide.  Nothing is added when the local exists.
+            m = re.match(r"^//@localdefault\s+(\w+)\s*:\s*(.+?)\s*=\s*(.+)$", c)
+            if m and not re.search(r"\blet\s+(mut\s+)?%s\b" % re.escape(m.group(1)), body):
+                body = " let %s: %s = %s; " % (m.group(1), m.group(2), m.group(3)) + body
+                rules.append("localdefault: local `%s` absent from the region, constant %s used" % (m.group(1), m.group(3)))
         if tail:
             body = body + "\n" + tail
             rules.append("E1' wrapper returns `%s`" % tail)
